@@ -455,6 +455,14 @@ fn cmd_replay(args: &[String]) {
     let prop = arg(args, "--prop").map(|s| s.to_string()).or_else(|| v.get("property").and_then(|p| p.as_str()).map(|s| s.to_string())).unwrap_or_else(|| harness_error("no property"));
     let specv = v.get("spec").cloned().unwrap_or_else(|| harness_error("no spec in replay file"));
     let spec: Spec = serde_json::from_value(specv).unwrap_or_else(|e| harness_error(&format!("spec: {}", e)));
+    // runs executed earlier by the same worker process (state the library carries across calls)
+    if let Some(pre) = v.get("pre_specs").and_then(|p| p.as_array()) {
+        for ps in pre {
+            if let Ok(s) = serde_json::from_value::<Spec>(ps.clone()) {
+                let _ = exec(&s, &prop);
+            }
+        }
+    }
     let r = exec(&spec, &prop);
     let mut out = json!({
         "property": prop,
